@@ -127,3 +127,69 @@ func zzReaderStream(max, maxDeliver int, fragment bool) {
 		vrt.Assert(delivered == 0, "request longer than 16 KiB delivered")
 	}
 }
+
+// ZZReaderSlowPiece: a piece message whose 6-byte block arrives slowly - the
+// read deadline expires at up to two arbitrary points inside the block, with
+// some bytes received before each expiry - followed by a have message: the
+// block delivered is exactly the block sent and the following message is
+// still decoded (framing kept). A deadline that expires with no byte of the
+// block received drops the peer.
+//
+//vrt:cover ZZReaderSlowPiece two stalls inside the block
+//vrt:cover ZZReaderSlowPiece stalled at the first byte: dropped
+func ZZReaderSlowPiece() {
+	const L = 6
+	block := vrt.Bytes("block", L)
+	idx, begin, have := vrt.U32("index"), vrt.U32("begin"), vrt.U32("have_index")
+	var stream []byte
+	stream = append(stream, 0, 0, 0, 9+L, 7)
+	stream = append(stream, byte(idx>>24), byte(idx>>16), byte(idx>>8), byte(idx), byte(begin>>24), byte(begin>>16), byte(begin>>8), byte(begin))
+	stream = append(stream, block...)
+	stream = append(stream, 0, 0, 0, 5, 4, byte(have>>24), byte(have>>16), byte(have>>8), byte(have))
+	conn := &vrt.Conn{In: stream}
+	const blockAt = 13
+	s1 := vrt.Choice("first_stall", L+1) // offset inside the block; L = no stall
+	if s1 < L {
+		conn.Stalls = append(conn.Stalls, blockAt+s1)
+		s2 := s1 + 1 + vrt.Choice("second_stall_after", L)
+		if s2 < L {
+			conn.Stalls = append(conn.Stalls, blockAt+s2)
+			vrt.Cover(true, "two stalls inside the block")
+		}
+	}
+	r := New(conn, logger.New("zz"), time.Minute, 1<<20, nil)
+	go r.Run()
+	var got []any
+	for len(got) < 2 {
+		var m any
+		ok := false
+		select {
+		case m, ok = <-r.Messages():
+		case <-r.Done():
+		}
+		if !ok {
+			break
+		}
+		got = append(got, m)
+	}
+	if s1 == 0 {
+		vrt.Cover(true, "stalled at the first byte: dropped")
+		vrt.Assert(len(got) == 0, "message delivered although the deadline expired before any byte of the block")
+		return
+	}
+	vrt.Assert(len(got) == 2, "slow block or the message after it not delivered")
+	if len(got) != 2 {
+		return
+	}
+	pm, ok := got[0].(Piece)
+	vrt.Assert(ok, "first message is not the piece")
+	if ok {
+		vrt.Assert(pm.Index == idx && pm.Begin == begin && len(pm.Buffer.Data) == L, "piece header or length decoded wrongly")
+		if len(pm.Buffer.Data) == L {
+			k := vrt.Choice("witness_block_byte", L)
+			vrt.Assert(pm.Buffer.Data[k] == block[k], "block reassembled from a slow peer differs from the block sent")
+		}
+	}
+	hm, ok := got[1].(peerprotocol.HaveMessage)
+	vrt.Assert(ok && hm.Index == have, "message following a slow block not decoded (framing lost)")
+}
